@@ -175,15 +175,23 @@ def make_scheduler(timeout=30.0):
     return sched.Scheduler([OUTPUT], [sched.LockLines(OUTPUT)], timeout=timeout)
 
 
-def run_memlog(S, threads, chooser):
+def run_memlog(S, threads, chooser, creator=None):
+    """`creator`: None = the logger is built by the harness thread before the workers start; 0 = worker 0 builds it
+    itself (ungated, as part of its start-up: the workers are started one after the other) and goes on using it."""
     from eliot import MemoryLogger
     from eliot._traceback import TRACEBACK_MESSAGE
 
-    lg = MemoryLogger()
+    box = {}
+    if creator is None:
+        box["lg"] = MemoryLogger()
     obs = {}
 
-    def worker(calls):
+    def worker(t, calls):
         def body():
+            if creator == t:
+                with S.ungated():
+                    box["lg"] = MemoryLogger()
+            lg = box["lg"]
             for c in calls:
                 try:
                     obs[c["cid"]] = do_call(lg, c)
@@ -193,10 +201,11 @@ def run_memlog(S, threads, chooser):
                     obs[c["cid"]] = {"raised": type(e).__name__}
         return body
 
-    res = S.run([worker(t) for t in threads], chooser)
+    res = S.run([worker(t, calls) for t, calls in enumerate(threads)], chooser)
     for e in res.errors.values():
         if isinstance(e, InfraError):
             raise e
+    lg = box.get("lg")
     tbser = TRACEBACK_MESSAGE._serializer
     try:
         final = dict(
@@ -287,12 +296,12 @@ def run_memlog_lockqueue(ctx, srng):
     nviol = 0
     done = nsched = 0
     for pi, threads in enumerate(progs):
-        if total.left() <= 0 or nviol:
+        if (total.left() <= 0 and done >= MIN_PROGRAMS["memlog-queued"]) or nviol:
             break
         done += 1
         budget = Budget(max(1.0, total.left() / (len(progs) - pi)))
         for how, (res, obs, final) in schedules(ctx, lambda ch: run_memlog_queued(S, threads, ch), srng, ctx.budget(2, 3), ctx.budget(1500, 20000),
-                                                ctx.budget(30, 500), budget):
+                                                ctx.budget(30, 500), budget, min_per_program("memlog-queued")):
             nsched += 1
             case = dict(kind="memlog-queued", program=threads, schedule=res.schedule)
             ctx.case(case, nontrivial=any(res.blocked), tags=["memlog-queued:threads:%d" % len(threads), "memlog-queued:sched:" + how,
@@ -302,7 +311,7 @@ def run_memlog_lockqueue(ctx, srng):
                 nviol += 1
                 ctx.violation(bad[0], dict(case, observed=dict(final=final, obs=obs), also=bad[1:4]), key=None)
                 break
-    explored(ctx, "memlog-queued", done, nsched, 4, nviol > 0)
+    explored(ctx, "memlog-queued", done, nsched)
 
 
 # ---- oracles (model-free) -------------------------------------------------------------------------
@@ -632,6 +641,7 @@ def run_file(S, case, chooser):
         dest = FileDestination(file=rec)
         rec.events[:] = []
         errors = []
+        unacked = []
         if via:
             D = Destinations()
             D.add(dest)
@@ -651,9 +661,16 @@ def run_file(S, case, chooser):
                         send(dict(m))
                     except BaseException as e:  # noqa - observation
                         errors.append(type(e).__name__)
+                        continue
+                    # the logging call has returned: its line must have been written by now
+                    mark = ('"thread":%d,"n":%d,' % (m["thread"], m["n"]))
+                    written = b"".join(d if isinstance(d, bytes) else d.encode("utf-8") for _, k, d in rec.events if k == "write").decode("utf-8", "replace")
+                    if mark.replace(" ", "") not in written.replace(" ", ""):
+                        unacked.append([m["thread"], m["n"]])
             return body
 
         res = S.run([worker(ms) for ms in msgs], chooser)
+        res.unacked = unacked
         f.close()
         raw = open(path, "rb").read()
     finally:
@@ -670,6 +687,8 @@ def oracle_file(case, res, msgs, raw, errors):
         return bad + ["threads deadlocked"]
     if errors:
         bad.append("destination raised %s" % errors)
+    if getattr(res, "unacked", None):
+        bad.append("logging calls returned although their lines were not in the file yet (thread, n): %s - acknowledged means written" % res.unacked)
     try:
         text = raw.decode("utf-8")
     except UnicodeDecodeError:
@@ -756,41 +775,44 @@ def file_model_case(case, msgs, events, ops, binary):
 
 # ---- driver of one family of runs ------------------------------------------------------------------
 
+# Minimum exploration per family: explored whatever the wall clock says (the time budgets only cut what lies beyond it), so
+# that a loaded machine makes the check slower, not weaker.  The framework's global time limit remains the only hard stop.
+MIN_PROGRAMS = {"memlog": 12, "file": 6, "reports": 2, "serfail": 4, "memlog-queued": 4}
 MIN_SCHEDULES = {"memlog": 200, "file": 300, "reports": 100, "serfail": 200, "memlog-queued": 300}
 
 
-def explored(ctx, family, programs, schedules, minimum, stopped_early):
-    """Record how much of a family was explored; a wall-clock cut before the fixed minimum number of programs is an
-    infrastructure problem (coverage must not shrink silently on a loaded machine), not a pass."""
+def min_per_program(family):
+    return -(-MIN_SCHEDULES[family] // MIN_PROGRAMS[family])
+
+
+def explored(ctx, family, programs, schedules):
     ctx.count("explored:%s:programs" % family, n=programs)
     ctx.count("explored:%s:schedules" % family, n=schedules)
-    need = MIN_SCHEDULES.get(family, 0)
-    if (programs < minimum or schedules < need) and not stopped_early:
-        raise InfraError("time budget exhausted before the minimum exploration: family %s ran %d of at least %d programs, %d of at least %d schedules"
-                         % (family, programs, minimum, schedules, need))
 
 
 class Budget(object):
     def __init__(self, seconds):
-        self.end = time.time() + seconds
+        self.end = time.time() + seconds * sched.budget_scale()
 
     def left(self):
         return self.end - time.time()
 
 
-def schedules(ctx, runner, rng, bound, dfs_limit, nrandom, budget):
-    """Yield results of DFS-enumerated then random schedules until limits / budget are hit."""
+def schedules(ctx, runner, rng, bound, dfs_limit, nrandom, budget, min_sched=0):
+    """Yield results of DFS-enumerated then random schedules until limits / budget are hit; the budget does not cut
+    before `min_sched` schedules of this program have been run."""
     n = 0
     for res in sched.explore(runner, bound=bound, limit=dfs_limit, result=lambda r: r[0]):
         n += 1
         yield "dfs", res
-        if budget.left() <= 0:
+        if budget.left() <= 0 and n >= min_sched:
             ctx.count("budget:cut")
             return
     for _ in range(nrandom):
-        if budget.left() <= 0:
+        if budget.left() <= 0 and n >= min_sched:
             ctx.count("budget:cut")
             return
+        n += 1
         yield "random", runner(sched.RandomChooser(rng, stay=rng.choice([0.0, 0.5, 0.8])))
 
 
@@ -813,24 +835,25 @@ def run(ctx):
     bound = ctx.budget(2, 3)
     dfs_limit = ctx.budget(200, 1500) * (3 if broken else 1)
     nrandom = ctx.budget(15, 125) * (3 if broken else 1)
-    total = Budget(ctx.budget(75, 700))
+    total = Budget(ctx.budget(45, 700))
     S = make_scheduler()
     model_in, model_ctx = [], []
     nviol = 0
     progs = gen_programs(rng, nprog, not ctx.quick)
     done = nsched = 0
     for pi, (fam, threads) in enumerate(progs):
-        if total.left() <= 0 or nviol >= 3:
+        if (total.left() <= 0 and done >= MIN_PROGRAMS["memlog"]) or nviol >= 3:
             break
         done += 1
         per = Budget(max(1.0, total.left() / max(1, (len(progs) - pi)) * 2))
         found = False
-        for how, (res, obs, final) in schedules(ctx, lambda ch: run_memlog(S, threads, ch), srng, bound, dfs_limit, nrandom, per):
+        creator = 0 if pi % 3 == 0 else None  # in a third of the programs the first thread builds the logger itself
+        for how, (res, obs, final) in schedules(ctx, lambda ch: run_memlog(S, threads, ch, creator), srng, bound, dfs_limit, nrandom, per, min_per_program("memlog")):
             nsched += 1
-            case = dict(kind="memlog", program=threads, schedule=res.schedule)
+            case = dict(kind="memlog", program=threads, schedule=res.schedule, creator=creator)
             nontriv = interleaved(res, len(threads)) and any(res.blocked)
             ctx.case(case, nontrivial=nontriv, tags=["memlog:family:" + fam, "memlog:threads:%d" % len(threads), "memlog:sched:" + how,
-                                                    "memlog:preemptions:%d" % min(res.preemptions, 4)])
+                                                    "memlog:preemptions:%d" % min(res.preemptions, 4), "memlog:built-by:" + ("harness" if creator is None else "worker")])
             ctx.count("memlog:steps", n=len(res.trace))
             bad = oracle_memlog(threads, res, obs, final)
             if bad:
@@ -843,7 +866,7 @@ def run(ctx):
             model_ctx.append((case, threads, obs, final, exact))
             if found:
                 break
-    explored(ctx, "memlog", done, nsched, 12, nviol > 0)  # at least the fixed small programs
+    explored(ctx, "memlog", done, nsched)
     # the model on the same schedules
     if model_in:
         answers = lean_driver("Driver/C16.lean", model_in)
@@ -880,7 +903,7 @@ def run_files(ctx, S, srng, broken):
             n = rng.choice([2, 3, 4])
             cases.append(dict(mode=rng.choice(["binary", "text"]), via=rng.choice(["direct", "logger"]), threads=n,
                               per=[rng.randint(1, 2) for _ in range(n)], unicode=rng.random() < 0.5))
-    total = Budget(ctx.budget(35, 300))
+    total = Budget(ctx.budget(25, 300))
     bound = ctx.budget(2, 3)
     dfs_limit = ctx.budget(120, 1500)
     nrandom = ctx.budget(5, 400)
@@ -890,12 +913,12 @@ def run_files(ctx, S, srng, broken):
     try:
         done = nsched = 0
         for ci, fc in enumerate(cases):
-            if total.left() <= 0 or nviol >= 2:
+            if (total.left() <= 0 and done >= MIN_PROGRAMS["file"]) or nviol >= 2:
                 break
             done += 1
             fc = dict(fc, tmp=tmp)
             per = Budget(max(1.0, total.left() / (len(cases) - ci) * 2))
-            for how, (res, msgs, events, raw, errors) in schedules(ctx, lambda ch: run_file(S, fc, ch), srng, bound, dfs_limit, nrandom, per):
+            for how, (res, msgs, events, raw, errors) in schedules(ctx, lambda ch: run_file(S, fc, ch), srng, bound, dfs_limit, nrandom, per, min_per_program("file")):
                 nsched += 1
                 case = dict(kind="file", file={k: v for k, v in fc.items() if k != "tmp"}, schedule=res.schedule)
                 order = [e[0] for e in events if e[1] == "write"]
@@ -917,7 +940,7 @@ def run_files(ctx, S, srng, broken):
             os.rmdir(tmp)
         except OSError:
             pass
-    explored(ctx, "file", done, nsched, 6, nviol > 0)
+    explored(ctx, "file", done, nsched)
     if model_in:
         answers = lean_driver("Driver/C16.lean", model_in)
         agree = 0
@@ -1022,12 +1045,12 @@ def run_reports(ctx, srng):
     nviol = 0
     done = nsched = 0
     for pi, per in enumerate([[1, 1], [2, 1]] + ([] if ctx.quick else [[1, 1, 1], [2, 2]])):
-        if total.left() <= 0 or nviol:
+        if (total.left() <= 0 and done >= MIN_PROGRAMS["reports"]) or nviol:
             break
         done += 1
         budget = Budget(max(1.0, total.left() / 2))
         for how, (res, obs) in schedules(ctx, lambda ch: run_reports_once(S, per, ch), srng, ctx.budget(2, 3), ctx.budget(250, 4000),
-                                         ctx.budget(20, 300), budget):
+                                         ctx.budget(20, 300), budget, min_per_program("reports")):
             nsched += 1
             case = dict(kind="reports", per=per, schedule=res.schedule)
             ctx.case(case, nontrivial=res.preemptions >= 1, tags=["reports:threads:%d" % len(per), "reports:sched:" + how,
@@ -1037,7 +1060,7 @@ def run_reports(ctx, srng):
                 nviol += 1
                 ctx.violation(bad[0], dict(case, observed=obs, also=bad[1:3]), key=None)
                 break
-    explored(ctx, "reports", done, nsched, 2, nviol > 0)
+    explored(ctx, "reports", done, nsched)
 
 
 # ---- real side: serialization failures from several threads through one Logger -------------------------
@@ -1140,12 +1163,12 @@ def run_serfail(ctx, srng):
     nviol = 0
     done = nsched = 0
     for pi, plan in enumerate(plans):
-        if total.left() <= 0 or nviol:
+        if (total.left() <= 0 and done >= MIN_PROGRAMS["serfail"]) or nviol:
             break
         done += 1
         budget = Budget(max(1.0, total.left() / (len(plans) - pi)))
         for how, (res, obs) in schedules(ctx, lambda ch: run_serfail_once(S, plan, ch), srng, ctx.budget(2, 3), ctx.budget(200, 4000),
-                                         ctx.budget(15, 300), budget):
+                                         ctx.budget(15, 300), budget, min_per_program("serfail")):
             nsched += 1
             case = dict(kind="serfail", plan=plan, schedule=res.schedule)
             ctx.case(case, nontrivial=res.preemptions >= 1, tags=["serfail:threads:%d" % len(plan), "serfail:sched:" + how,
@@ -1155,7 +1178,7 @@ def run_serfail(ctx, srng):
                 nviol += 1
                 ctx.violation(bad[0], dict(case, observed=obs, also=bad[1:3]), key=None)
                 break
-    explored(ctx, "serfail", done, nsched, 4, nviol > 0)
+    explored(ctx, "serfail", done, nsched)
 
 
 # ---- replay ------------------------------------------------------------------------------------------
@@ -1165,7 +1188,7 @@ def replay(ctx, obj):
     S = make_scheduler()
     if case.get("kind") == "memlog":
         threads = case["program"]
-        res, obs, final = run_memlog(S, threads, sched.Explicit(case["schedule"]))
+        res, obs, final = run_memlog(S, threads, sched.Explicit(case["schedule"]), case.get("creator"))
         print("program :", json.dumps(threads))
         print("executed:", res.lines[:400])
         print("final   :", final)
